@@ -782,6 +782,18 @@ func genDfPairs(rng *gen.Rng, seqLen, seqSample, trees int, emit func(Case)) {
 	}
 }
 
+// specC16: the clauses of C16 observed on the implementation's own lexer (lossless segmentation, Peek = Next,
+// end-of-input for ever, a lexical error makes Parse fail).
+func specC16(c *Case, ps []*Probe) []string {
+	var out []string
+	for _, p := range ps {
+		if p.Lex != nil {
+			out = append(out, p.Lex.Fails...)
+		}
+	}
+	return out
+}
+
 var properties = map[string]*Property{}
 
 func init() {
@@ -812,7 +824,7 @@ func init() {
 			emit(Case{Gen: "G3-bigshape-10k", Kind: "qimpl", S: s, DF: "df", Idx: i})
 		}
 	}})
-	add(&Property{ID: "C16", Fields: fields("LEX"), Spec: noSpec, Generate: func(cfg RunConfig, emit func(Case)) {
+	add(&Property{ID: "C16", Fields: fields("LEX"), Spec: specC16, Generate: func(cfg RunConfig, emit func(Case)) {
 		rng := gen.NewRng(cfg.Seed, 16)
 		for n := 1; n <= tiered(cfg, 3, 4); n++ {
 			for i := 0; i < gen.Pow(n); i++ {
